@@ -148,19 +148,37 @@ def main(argv=None):
     for hname, h in harnesses.items():
         jobs = h.jobs(tier)
         rnd.shuffle(jobs)
+        if tier == "thorough":
+            # anytime order: the quick tier's jobs first, so that thorough always covers quick
+            qj = [json.dumps(j, sort_keys=True, default=str) for j in h.jobs("quick")]
+            jobs.sort(key=lambda j: json.dumps(j, sort_keys=True, default=str) not in qj)
         per_h[hname] = {"jobs": len(jobs), "res": None, "params_done": 0}
         for params in jobs:
             opts = dict(h.opts.get(tier, h.opts.get("quick", {})) if "quick" in h.opts or "thorough" in h.opts else h.opts)
             opts["known"] = [k for k in known if k.get("status") == "known" and k.get("harness") in (None, hname)]
             opts.setdefault("query_timeout_ms", 10000 if tier == "quick" else 120000)
             opts["seed"] = seed
+            opts.setdefault("lia", "fallback")
+            if os.environ.get("SX_LIA"):  # debugging: 0 | first | fallback
+                opts["lia"] = {"0": False}.get(os.environ["SX_LIA"], os.environ["SX_LIA"])
             tasks.append((modname, hname, params, [], opts, opts.get("slice_s", 5.0)))
-    deadline = t0 + float(os.environ.get("SX_DEADLINE_S", mod.DEADLINE.get(tier, 600) if hasattr(mod, "DEADLINE") else 600))
+    dl = mod.DEADLINE.get(tier, 600) if hasattr(mod, "DEADLINE") else 600
+    if tier == "quick":
+        dl = max(dl, 900)  # strict tier: several times the idle-machine wall time, so that load does not turn it INCONCLUSIVE
+    deadline = t0 + float(os.environ.get("SX_DEADLINE_S", dl))
 
     from .core import Result
 
     results = {hname: Result() for hname in harnesses}
     budget_exhausted = False
+    # per job (harness, params): number of queued/running path-prefix tasks; 0 = explored completely
+    def _jk(t):
+        return (t[1], json.dumps(t[2], sort_keys=True, default=str))
+
+    open_tasks = {}
+    for t in tasks:
+        open_tasks[_jk(t)] = open_tasks.get(_jk(t), 0) + 1
+    jobs_total = len(open_tasks)
     ctx = multiprocessing.get_context("fork")
     nworkers = max(1, args.jobs)
     with cf.ProcessPoolExecutor(max_workers=nworkers, mp_context=ctx) as ex:
@@ -176,6 +194,7 @@ def main(argv=None):
                 left = res.leftover
                 res.leftover = []
                 results[hname].merge(res)
+                open_tasks[_jk(t)] += len(left) - 1
                 for pre in left:
                     tasks.append((t[0], t[1], t[2], pre, t[4], t[5]))
             if time.time() > deadline and (tasks or inflight):
@@ -213,10 +232,20 @@ def main(argv=None):
         if res.inconclusive:
             inconclusive.append("%s: %s" % (hname, res.inconclusive[0]))
         h = harnesses[hname]
-        if h.twin and ("check:" + h.twin) not in res.reached and h.twin not in res.reached:
+        some_job_done = any(n == 0 for (hn, _), n in open_tasks.items() if hn == hname)
+        if h.twin and ("check:" + h.twin) not in res.reached and h.twin not in res.reached and (some_job_done or not budget_exhausted):
             engine_errors.append("%s: reach marker %s never hit (vacuous harness)" % (hname, h.twin))
+    incomplete_jobs = sorted(k for k, n in open_tasks.items() if n > 0)
     if budget_exhausted:
-        inconclusive.append("time budget exhausted before all paths were explored")
+        if tier == "thorough":
+            # the thorough tier is an anytime exploration: what was not reached within the budget is
+            # reported as not covered (evidence: incomplete_jobs), it is neither claimed nor an alarm
+            lines.append(
+                "NOTE: time budget exhausted: %d of %d jobs explored completely; the remainder is listed in evidence as not covered"
+                % (jobs_total - len(incomplete_jobs), jobs_total)
+            )
+        else:
+            inconclusive.append("time budget exhausted before all paths were explored")
 
     # replay violations and known findings on the plain code
     os.makedirs(os.path.join(VERIF, "replays"), exist_ok=True)
@@ -315,6 +344,11 @@ def main(argv=None):
     # ------------------------------------------------------------------ evidence
     if not args.no_evidence and not args.only:
         ev = _evidence(prop, tier, seed, mod, harnesses, results, total, validated, confirmed, all_known, inconclusive, engine_errors, budget_exhausted, wall, per_h)
+        ev["coverage"]["jobs_total"] = jobs_total
+        ev["coverage"]["jobs_explored_completely"] = jobs_total - len(incomplete_jobs)
+        ev["coverage"]["incomplete_jobs"] = ["%s %s" % k for k in incomplete_jobs[:200]]
+        if incomplete_jobs:
+            ev["coverage"]["exhaustive"] = False
         os.makedirs(os.path.join(VERIF, "evidence"), exist_ok=True)
         with open(os.path.join(VERIF, "evidence", prop + ".json"), "w") as f:
             json.dump(ev, f, indent=1, sort_keys=True, default=str)
